@@ -7,4 +7,4 @@ CONSTANTS
   MaxCrashes = 0
   CrashPlans <- AnyTime
   Emit = FALSE
-INVARIANTS NoLostJob AtMostOnce RestartExact FileOrBackupComplete
+INVARIANTS NoLostJob AtMostOnce AtMostOncePerRun RestartExact FileOrBackupComplete
